@@ -425,6 +425,70 @@ func runHistory(a *adapter, hist []M, rec *recorder, hid int) {
 	}
 }
 
+// token batch: ONE conditional command carrying several tokens. The tokens are independent cells: each is written iff
+// its own expectation matches (the first token follows the generated cell history, the second always carries its
+// current index, the third is a create-only of a fresh accessor); both orders of the first two.
+func runTokenBatch(hist []M, rec *recorder, hid int) {
+	acc2, sec2 := sh.UUID("token-accessor-2"), sh.UUID("token-secret-2")
+	read := func(h *sh.H, acc string) cellState {
+		_, t, _ := h.Store().ACLTokenGetByAccessor(nil, acc, nil)
+		if t == nil {
+			return cellState{}
+		}
+		return cellState{exists: true, mi: t.ModifyIndex, tag: t.Description}
+	}
+	mk := func(acc, sec string, sup uint64, tag string) *structs.ACLToken {
+		t := &structs.ACLToken{AccessorID: acc, SecretID: sec, Description: tag}
+		t.ModifyIndex = sup
+		t.SetHash(true)
+		return t
+	}
+	var a *adapter
+	for _, x := range adapters() {
+		if x.name == "acl-token-cas" {
+			a = x
+		}
+	}
+	for order := 0; order < 2; order++ {
+		h := sh.New()
+		var idx uint64 = 2
+		apply(h, structs.ACLTokenSetRequestType, &structs.ACLTokenBatchSetRequest{Tokens: structs.ACLTokens{mk(acc2, sec2, 0, "second")}}, idx)
+		step := 0
+		for _, op := range hist {
+			idx += 2
+			step++
+			tag := fmt.Sprintf("%d", 100*hid%9000+step+1000)
+			switch op["op"] {
+			case "put":
+				a.put(h, idx, tag)
+			case "del":
+				a.del(h, idx)
+			case "cond":
+				class := op["class"].(string)
+				acc3, sec3 := sh.UUID(fmt.Sprintf("token-accessor-3-%d-%d", hid, step)), sh.UUID(fmt.Sprintf("token-secret-3-%d-%d", hid, step))
+				pre1, pre2, pre3 := read(h, tokAccessor), read(h, acc2), read(h, acc3)
+				sup1 := supOf(class, pre1, "set", idx)
+				t1, t2, t3 := tok(sup1, tag), mk(acc2, sec2, pre2.mi, tag+"b"), mk(acc3, sec3, 0, tag+"c")
+				toks := structs.ACLTokens{t1, t2, t3}
+				if order == 1 {
+					toks = structs.ACLTokens{t2, t3, t1}
+				}
+				raw := apply(h, structs.ACLTokenSetRequestType, &structs.ACLTokenBatchSetRequest{Tokens: toks, CAS: true}, idx)
+				reported := "none"
+				if _, isErr := raw.(error); isErr {
+					reported = "no"
+				}
+				post1, post2, post3 := read(h, tokAccessor), read(h, acc2), read(h, acc3)
+				p1 := part(a, pre1, sup1, idx, tag, reported, post1, post1 != pre1)
+				p2 := part(a, pre2, pre2.mi, idx, tag+"b", reported, post2, post2 != pre2)
+				p3 := part(a, pre3, 0, idx, tag+"c", reported, post3, post3 != pre3)
+				p1["type"], p2["type"], p3["type"] = "acl-token-batch.first", "acl-token-batch.second", "acl-token-batch.fresh"
+				rec.emit(M{"cmd": M{"type": "acl-token-cas", "batch": 3, "class": class, "order": order, "history": hist[:step]}, "independent": true, "parts": []M{p1, p2, p3}})
+			}
+		}
+	}
+}
+
 // composite: CA roots + CA config in one command. Cell histories drive both cells; the conditional
 // step is expanded over every class for the config half.
 func runComposite(hist []M, rec *recorder, hid int) {
@@ -585,6 +649,9 @@ func main() {
 	}
 	for hid, h := range hists {
 		runComposite(h, rec, hid)
+	}
+	for hid, h := range hists {
+		runTokenBatch(h, rec, hid)
 	}
 	runFeatureGate(r, *nrand, rec)
 	rec.w.Flush()
